@@ -2,6 +2,7 @@
 From SJ Require Import Base.Bytes Base.Utf8 Base.FloatB Model.Read Model.Value Model.De Model.Sval Model.Ser Model.ValueSer
   Spec.Syntax Spec.Denote Spec.Layout
   Proofs.SerBase Proofs.SerHint Proofs.SerRender Proofs.SerValue Proofs.SerWriter Proofs.SerMain.
+From SJ Require Import Proofs.SerFinal.
 
 (* compact output of any well-formed call tree: exactly one well-formed JSON text, no insignificant whitespace,
    denoting the data-model image *)
@@ -56,21 +57,21 @@ Proof. exact C03_utf8_main'. Qed.
 Print Assumptions C03_utf8.
 
 (* Values: `impl Serialize for Value` prints a text denoting the Value itself (and its pretty layout) *)
-Theorem C03_value_render : forall cf fmt32 fmt64 v, ryu_json fmt32 fmt64 -> ryu_reads_back_value cf fmt64 -> literal_kept cf ->
+Theorem C03_value_render : forall cf fmt32 fmt64 v, ryu_json fmt32 fmt64 -> ryu_reads_back_value cf fmt64 -> 
   wf_value cf v = true ->
   exists bufs c,
     serialize cf fmt32 fmt64 Compact (sval_of_value v) = Ok bufs
     /\ concat bufs = render c /\ wfb c = true /\ nows c = true /\ denote cf c = Some v
     /\ (forall ind, exists bufsp, serialize cf fmt32 fmt64 (Pretty ind) (sval_of_value v) = Ok bufsp /\ concat bufsp = layout ind 0 c).
-Proof. exact C03_value_render_main'. Qed.
+Proof. exact C03_value_render_final. Qed.
 Print Assumptions C03_value_render.
 
 (* ... which the parser reads back as that Value (parser completeness, Proofs/GrammarValue.v value_complete, as a hypothesis) *)
-Theorem C03_value_roundtrip : forall cf fmt32 fmt64 v, ryu_json fmt32 fmt64 -> ryu_reads_back_value cf fmt64 -> literal_kept cf ->
-  parser_complete cf -> wf_value cf v = true ->
+Theorem C03_value_roundtrip : forall cf fmt32 fmt64 v, ryu_json fmt32 fmt64 -> ryu_reads_back_value cf fmt64 -> 
+   wf_value cf v = true ->
   exists bufs c, serialize cf fmt32 fmt64 Compact (sval_of_value v) = Ok bufs /\ concat bufs = render c /\
     ((limit_disabled cf = false -> (cdepth c <= 127)%nat) -> from_input (mkEnv RSlice TEof cf) (concat bufs) = Ok v).
-Proof. exact C03_value_roundtrip_main'. Qed.
+Proof. exact C03_value_roundtrip_final. Qed.
 Print Assumptions C03_value_roundtrip.
 
 (* Display / {:#}: the same run into a writer that never fails receives exactly to_string's / to_string_pretty's bytes *)
